@@ -47,10 +47,13 @@ def _cases(draw, tier):
     diff = pct(draw) < 12
     pc = pct(draw) < 35
     shape = draw(st.sampled_from(['mix', 'contention', 'contention', 'few_students_long_lists',
-                                  'only_empty']))
+                                  'only_empty', 'many_projects']))
     sizes = dict(SIZES[tier])
     if shape == 'few_students_long_lists':
         sizes['n1'] = 2
+    if shape == 'many_projects':
+        # two-digit project / lecturer ids: (n2+1)^n1 <= 14^3
+        sizes = dict(n1=3, n2=13, n2min=10, n3=12, lmax=4)
     inst = draw(strategies.instances(sizes, min_len=2 if shape == 'contention' else 1))
     if shape == 'contention':
         # capacity-one projects fought over by several students with strict lists: maximum
@@ -141,6 +144,8 @@ def run_case(case):
     labels = ['na=%d' % inst['na'], 'twopl' if case['twopl'] else 'one_sided',
               'pc' if case['pc'] else 'no_pc',
               'maxrank>n1' if o.maxrank > o.n1 else 'maxrank<=n1']
+    if o.n2 >= 10:
+        labels.append('two_digit_ids')
     if not valid:
         if not out['infeasible']:
             raise Violation('infeasible_not_reported', 'no valid matching exists but brute force '
